@@ -323,7 +323,7 @@ func wireMatch(w *World, wc *wireCtx, r *Report) {
 			// what does this function emit with the filtered pairs?
 			var usesKey, usesVal bool
 			for _, st := range wc.m.sitesOf(fn) {
-				pf := pairFieldsEmitted(st.val)
+				pf := pairUse(wc, st)
 				if pf["Key"] {
 					usesKey = true
 				}
@@ -364,7 +364,7 @@ func wireMatch(w *World, wc *wireCtx, r *Report) {
 		}
 		var usesKey, usesVal, inPairLoop bool
 		for _, st := range wc.m.sitesOf(fn) {
-			pf := pairFieldsEmitted(st.val)
+			pf := pairUse(wc, st)
 			if pf["Key"] {
 				usesKey = true
 			}
@@ -526,6 +526,23 @@ func pairFieldsEmitted(v ssa.Value) map[string]bool {
 	}
 	walk(v, 0)
 	return out
+}
+
+// pairUse: which MatchPair fields the text emitted at a site is made from. Field reads visible in the function decide; only when the
+// pairs are consumed entirely inside helpers (e.g. a helper returning the unique packet names) does the helpers' dependence decide.
+func pairUse(wc *wireCtx, s site) map[string]bool {
+	pf := pairFieldsEmitted(s.val)
+	if len(pf) > 0 {
+		return pf
+	}
+	d, _ := wc.m.siteDeps(s, nil)
+	if d&sPK != 0 {
+		pf["Key"] = true
+	}
+	if d&sPV != 0 {
+		pf["Value"] = true
+	}
+	return pf
 }
 
 func pairFieldOf(v ssa.Value) string {
